@@ -209,9 +209,29 @@ func runC16(c *engine.Ctx) {
 			})
 			return out
 		}
-		// extract re-signals when builders remain
+		// extract re-signals when builders remain (the signal may sit in a helper that always signals)
 		ok := false
-		for _, s := range signals(m.extract) {
+		isSignal := func(in ssa.Instruction) bool {
+			switch x := in.(type) {
+			case *ssa.Send:
+				return isLoadOfField(x.Chan, workF)
+			case *ssa.Select:
+				for _, st := range x.States {
+					if st.Dir == types.SendOnly && isLoadOfField(st.Chan, workF) {
+						return true
+					}
+				}
+			}
+			return false
+		}
+		liftedSignal := engine.LiftMust(isSignal)
+		var resignals []ssa.Instruction
+		engine.Instrs(m.extract, func(in ssa.Instruction) {
+			if liftedSignal(in) {
+				resignals = append(resignals, in)
+			}
+		})
+		for _, s := range resignals {
 			for _, cond := range engine.InstrConds(s) {
 				if b, isB := cond.V.(*ssa.BinOp); isB && cond.Pol && (b.Op == token.GTR || b.Op == token.NEQ) {
 					if call, isC := b.X.(*ssa.Call); isC {
